@@ -255,3 +255,140 @@ theorem step_supply (ord : List Group → List Group) (w : World) (st : Step) (d
       rw [deliver_admin_supply ord w.vals w.s _ rfl (by intro pm h; cases h) (by intro pm h; cases h)]
 
 end Sif.EthBridge
+
+namespace Sif.EthBridge
+open Sif.Oracle Sif.Bank Sif.Spec.C06 Sif.Spec.C07
+
+/-- a credit for a claim that is not a lock claim leaves the peggy-token list alone -/
+theorem processSuccessfulClaim_peggy_other {s s' : BState} {r : Nat} {a : Int} {sym : String} {t c : Nat}
+    (h : processSuccessfulClaim s (.eth r a sym t c) = .ok s') (hc : c ≠ 2) : s'.peggy = s.peggy := by
+  unfold processSuccessfulClaim at h
+  simp only [hc, if_false] at h
+  split at h
+  · split at h
+    · cases h
+    · split at h
+      · cases h
+      · cases h; rfl
+  · cases h
+
+/-- `AddPeggyToken` is exact-string set insertion -/
+theorem addPeggy_spec (l : List String) (d : String) :
+    (addPeggy l d).contains d = true ∧ (∀ x, l.contains x = true → (addPeggy l d).contains x = true) ∧
+    (∀ x, (addPeggy l d).contains x = true → l.contains x = true ∨ x = d) := by
+  unfold addPeggy
+  split
+  · rename_i h
+    exact ⟨h, fun x hx => hx, fun x hx => Or.inl hx⟩
+  · refine ⟨by simp, fun x hx => ?_, fun x hx => ?_⟩
+    · simp only [List.contains_eq_mem, List.mem_append, decide_eq_true_eq] at hx ⊢
+      exact Or.inl hx
+    · simp only [List.contains_eq_mem, List.mem_append, decide_eq_true_eq, List.mem_singleton] at hx ⊢
+      exact hx
+
+/-- the pegged denominations one step of a history mints: an accepted lock claim that reports SUCCESS -/
+def stepMinted (ord : List Group → List Group) (w : World) : Step → List String
+  | .msg (.claim m) =>
+    if (deliver ord w.vals w.s (.claim m)).2 = .claimed .success then
+      match finalOf (deliver ord w.vals w.s (.claim m)).1.oracle (claimOf m).id with
+      | .eth _ _ sym _ 2 => [peggedPrefix ++ sym]
+      | _ => []
+    else []
+  | _ => []
+
+/-- all pegged denominations a history mints -/
+def mintedOf (ord : List Group → List Group) (w : World) : List Step → List String
+  | [] => []
+  | st :: rest => stepMinted ord w st ++ mintedOf ord (stepWorld ord w st) rest
+
+end Sif.EthBridge
+
+namespace Sif.Bank
+
+/-- the bank primitives fail only with "insufficient funds" or a panic -/
+def bankFail (f : Fail) : Prop := f = .err .funds ∨ f = .panic
+
+theorem subCoin_err {b : Bank} {a : Nat} {d : String} {n : Nat} {f : Fail} (h : subCoin b a d n = .error f) : bankFail f := by
+  unfold subCoin at h
+  split at h
+  · cases h
+  · split at h
+    · cases h; exact Or.inl rfl
+    · cases h
+
+theorem addCoin_err {b : Bank} {a : Nat} {d : String} {n : Nat} {f : Fail} (h : addCoin b a d n = .error f) : bankFail f := by
+  unfold addCoin at h
+  split at h
+  · cases h
+  · split at h
+    · cases h; exact Or.inr rfl
+    · cases h
+
+theorem sendCoin_err {b : Bank} {src dst : Nat} {d : String} {n : Nat} {f : Fail} (h : sendCoin b src dst d n = .error f) : bankFail f := by
+  unfold sendCoin at h
+  split at h
+  · rename_i f' h1; cases h; exact subCoin_err h1
+  · split at h
+    · rename_i f' h2; cases h; exact addCoin_err h2
+    · cases h
+
+theorem burnCoin_err {b : Bank} {d : String} {n : Nat} {f : Fail} (h : burnCoin b d n = .error f) : bankFail f := by
+  unfold burnCoin at h
+  split at h
+  · rename_i f' h1; cases h; exact subCoin_err h1
+  · split at h
+    · cases h
+    · split at h
+      · cases h; exact Or.inr rfl
+      · cases h
+
+end Sif.Bank
+
+namespace Sif.EthBridge
+open Sif.Oracle Sif.Bank
+
+theorem pegMove_err {s : BState} {m : PegMsg} {sp : Bool} {f : Fail} (h : pegMove s m sp = .error f) : bankFail f := by
+  unfold pegMove at h
+  simp only at h
+  split at h
+  · split at h
+    · rename_i f' h1; cases h; exact sendCoin_err h1
+    · split at h
+      · cases h; exact Or.inr rfl
+      · split at h
+        · rename_i f' h2; cases h; exact sendCoin_err h2
+        · exact burnCoin_err h
+  · split at h
+    · cases h; exact Or.inr rfl
+    · split at h
+      · split at h
+        · split at h
+          · cases h; exact Or.inr rfl
+          · split at h
+            · rename_i f' h1; cases h; exact sendCoin_err h1
+            · exact burnCoin_err h
+        · cases h; exact Or.inr rfl
+      · split at h
+        · rename_i f' h1; cases h; exact sendCoin_err h1
+        · split at h
+          · rename_i f' h2; cases h; exact sendCoin_err h2
+          · exact burnCoin_err h
+
+/-- a burn is refused as "native token" only if the token is not in the peggy-token list -/
+theorem burn_native_refusal {s : BState} {m : PegMsg} (h : burn s m = .error (.err .native)) : s.peggy.contains m.symbol = false := by
+  unfold burn at h
+  split at h
+  · cases h
+  · split at h
+    · rename_i hp; simpa using hp
+    · split at h
+      · cases h
+      · split at h
+        · cases h
+        · split at h
+          · rename_i f hf
+            cases h
+            rcases pegMove_err hf with e | e <;> cases e
+          · cases h
+
+end Sif.EthBridge
